@@ -118,8 +118,14 @@ def conform(states, layers, mods, regexes, depth, res):
         if len(hist) >= depth:
             continue
         pending = any(d["kind"] == "pending" for d in s["defs"])
+        taken = {m for d in s["defs"] for m in d["mods"]}
         for a in alphabet:
             enabled = json.dumps(hist + [a]) in hists
+            if a[0] == "regex" and a[1] in taken:
+                # a regex spelled like an identifier that is already assigned: the property only
+                # speaks about names passed as string or list, so this call is don't-care
+                res.stats["tla:dont-care"] += 1
+                continue
             if not enabled and a[0] != "layer" and not pending:
                 res.stats["tla:dont-care"] += 1
                 continue  # modules without an open layer: outside the property
@@ -140,7 +146,7 @@ def conform(states, layers, mods, regexes, depth, res):
 
 
 def run(res, tier):
-    layers, mods, regexes = ["L1", "L2", "L3"], ["mod_one", "one_mod", "o"], ["rx1"]
+    layers, mods, regexes = ["L1", "L2", "L3"], ["mod_one", "one_mod", "o"], ["rx1", "mod_one"]
     depth = 5 if tier == "quick" else 6
     rc, out = run_tlc(layers, mods, regexes, depth)
     m = re.search(r"(\d+) states generated, (\d+) distinct states found", out)
